@@ -21,6 +21,9 @@ import (
 type Spec struct {
 	Tree    h.Tree  `json:"tree"`
 	Damages []h.Dmg `json:"damages"`
+	// SigFile: validate against the signature read back from a signature stream (what butler does)
+	// instead of the directly computed one
+	SigFile bool `json:"sig_file,omitempty"`
 }
 
 // readWounds parses a .pww file.
@@ -151,17 +154,20 @@ func check(s Spec) h.Result {
 	if err := s.Tree.Write(work); err != nil {
 		return h.Result{Skip: "cannot write tree"}
 	}
-	c, hs, err := h.Sign(ref)
+	si, err := h.SignatureOf(ref, s.SigFile)
 	if err != nil {
 		return h.Failf("signing failed: %v", err)
 	}
-	si := &pwr.SignatureInfo{Container: c, Hashes: hs}
+	c := si.Container
 	for _, dm := range s.Damages {
 		if err := h.ApplyDmg(work, dm); err != nil {
 			return h.Result{Skip: "cannot damage: " + err.Error()}
 		}
 	}
 	cl := h.DmgClasses(s.Tree, s.Damages)
+	if s.SigFile {
+		cl = append(cl, "signature:read-back-from-a-stream")
+	}
 	devs := h.Observe(work, s.Tree, IndexOf(c))
 	deviates := len(devs) > 0
 	if _, err := os.Lstat(work); err != nil {
@@ -245,7 +251,7 @@ var prop = h.Prop[Spec]{
 	ID: "C05", Name: "wounds",
 	Gen: func(t *rapid.T) Spec {
 		tr := GenTree(t)
-		return Spec{Tree: tr, Damages: h.GenDamages(t, tr, 4, true, false)}
+		return Spec{Tree: tr, Damages: h.GenDamages(t, tr, 4, true, false), SigFile: rapid.IntRange(0, 3).Draw(t, "signature-from-stream") == 0}
 	},
 	Check: check,
 }
